@@ -112,7 +112,15 @@ func vC18Docs() (JsonNode, JsonNode) {
 		}
 		return a, b
 	}
-	switch vChoice(vParam("FAMS", 4)) {
+	switch vChoice(vParam("FAMS", 5)) {
+	case 4:
+		// an array directly inside an array (and inside that again): inner removals,
+		// replacements and appends reached through an index
+		n := vParam("N", 2)
+		if vChoice(2) == 1 {
+			return jsonArray{jsonArray{vNumArray(n)}}, jsonArray{jsonArray{vNumArray(n)}}
+		}
+		return jsonArray{vNumArray(n)}, jsonArray{vNumArray(n)}
 	case 0:
 		n := vParam("N", 2)
 		return vNumArray(n), vNumArray(n)
